@@ -103,7 +103,8 @@ def gen_read_cases(c, P):
             mem = [(k, m, data)]
             big = len(data) > 6000
             add(m, [], [4096], ("ok", data), "read/%s/single/whole" % k, mem)
-            add(m, rand_frags(rng, len(m), 37), [rng.choice((3, 50, 4096, 20000))], ("ok", data), "read/%s/single/random-frags" % k, mem)
+            add(m, rand_frags(rng, len(m), 37 if len(m) < 50000 else 3000), [rng.choice((3, 50, 4096, 20000)) if len(data) < 50000 else rng.choice((4096, 20000))],
+                ("ok", data), "read/%s/single/random-frags" % k, mem)
             if not big:
                 add(m, [1] * len(m), [1], ("ok", data), "read/%s/single/1-byte-frags-1-byte-requests" % k, mem)
                 add(m, rand_frags(rng, len(m), 5), rng.choice(amount_sets), ("ok", data), "read/%s/single/random-frags" % k, mem)
@@ -125,10 +126,11 @@ def gen_read_cases(c, P):
             mem.append((k, enc(k, P[nm]), P[nm]))
         stream = b"".join(m for _, m, _ in mem)
         data = b"".join(d for _, _, d in mem)
-        add(stream, rand_frags(rng, len(stream), rng.choice((3, 40, 5000))), rng.choice(amount_sets), ("ok", data),
+        add(stream, rand_frags(rng, len(stream), rng.choice((3, 40, 5000)) if len(stream) < 50000 else 5000),
+            rng.choice(amount_sets) if len(data) < 50000 else [65536], ("ok", data),
             "read/concat/%d-members" % n, mem)
         if len(stream) < 700:
-            add(stream, [1] * len(stream), [rng.choice((1, 2, 4096))], ("ok", data), "read/concat/1-byte-frags", mem)
+            add(stream, [1] * len(stream), [rng.choice((1, 2, 4096)) if len(data) < 20000 else 4096], ("ok", data), "read/concat/1-byte-frags", mem)
     # --- member boundary around the 16384-byte input buffer: the next magic straddles the refill
     for target in (16384, 16383, 16385, 16379, 16380, 16381, 16382, 32768 - 3):
         m1 = gz_member_of_length(rng, target)
@@ -140,6 +142,35 @@ def gen_read_cases(c, P):
         add(m1 + mem[1][1], [], [65536], ("ok", d1 + P["tiny"]), "read/concat/magic-straddles-input-buffer", mem)
         add(m1 + mem[1][1], rand_frags(rng, len(m1) + len(mem[1][1]), 3000), [4096], ("ok", d1 + P["tiny"]),
             "read/concat/magic-straddles-input-buffer", mem)
+    # --- a NON-FINAL member that ends exactly on / around an input-buffer refill boundary.
+    # ReadFactory consumes kMagicSize (6) bytes, then ReadStream refills 16384 bytes at a time:
+    # the refills sit at absolute offsets 6 + 16384*j.  When a member ends there the input
+    # buffer is empty at END and the next member must be found by probing the file again
+    # (ReadFactory with already_size = 0).  For gz the member itself is sized; for bz2/xz a
+    # sized gz member in front shifts the member so that its END falls on the boundary.
+    tail_kinds = list(kinds)
+    for j in (1, 2):
+        for d in range(-3, 4):
+            end = 6 + 16384 * j + d
+            m1 = gz_member_of_length(rng, end)
+            if m1 is not None:
+                k2 = tail_kinds[(j + d) % 3]
+                m2 = enc(k2, P["tiny"])
+                mem = [("gz", m1, zlib.decompress(m1, 31)), (k2, m2, P["tiny"])]
+                add(m1 + m2, [], [rng.choice((4096, 65536))], ("ok", mem[0][2] + P["tiny"]),
+                    "read/concat/member-ends-at-refill-boundary%+d/gz" % d, mem)
+            for kb in ("bz", "xz"):
+                body = bytes(rng.randrange(256) for _ in range(rng.randrange(1500, 3500)))
+                mb = enc(kb, body)
+                ma = gz_member_of_length(rng, end - len(mb))
+                if ma is None:
+                    continue
+                k3 = tail_kinds[(j + d + 1) % 3]
+                mc = enc(k3, P["one"])
+                da = zlib.decompress(ma, 31)
+                mem = [("gz", ma, da), (kb, mb, body), (k3, mc, P["one"])]
+                add(ma + mb + mc, [] if d % 2 else rand_frags(rng, len(ma) + len(mb) + len(mc), 5000), [rng.choice((4096, 65536))],
+                    ("ok", da + body + P["one"]), "read/concat/member-ends-at-refill-boundary%+d/%s" % (d, kb), mem)
     # --- truncation at every byte of small streams; and of a second member
     for k in kinds:
         m = enc(k, P["tiny"])
@@ -374,11 +405,12 @@ def main(argv):
         c.broken.append("extraction/driver build failed: " + dlog[-600:])
     else:
         mlines = [lines[0]] + [l + " " + codeclog.log_token(ev) for l, ev in zip(lines[1:], events[1:])]
-        rc, mout, merr = run_lines(drv, mlines, timeout=900)
+        rc, mout, merr = codeclog.run_lines_bigstack(drv, mlines, timeout=1800)
         if len(mout) != len(mlines):
             c.broken.append("model driver produced %d lines for %d cases (rc %s) %s" % (len(mout), len(mlines), rc, merr[-300:]))
         else:
-            dis = [(l, a, b) for l, a, b in zip(lines, mout, results) if a != b and b != "SKIPPED"]
+            truncated = [any(isinstance(e, tuple) and e[0] == "X" for e in ev) for ev in events]
+            dis = [(l, a, b) for l, a, b, t in zip(lines, mout, results, truncated) if a != b and b != "SKIPPED" and not t]
             c.cov["traces_validated_against_impl"] += len(lines)
             if dis:
                 l, a, b = min(dis, key=lambda d: len(d[0]))
@@ -407,7 +439,11 @@ def main(argv):
         elif kind == "notok":
             if res.startswith("OK"):
                 c.violation("garbage-after-member-accepted: %s gave %s" % (x["bucket"], res[:120]), rep)
-        contract_decoder(c, x, ev)
+        if any(isinstance(e, tuple) and e[0] == "X" for e in ev):
+            # too many codec calls for the log budget: output oracle only
+            c.cov["distribution"]["log-truncated(no replay)"] = c.cov["distribution"].get("log-truncated(no replay)", 0) + 1
+        else:
+            contract_decoder(c, x, ev)
 
     cli_budget = 24 if c.tier == "quick" else 200
     for x, res, ev in zip(wcases, w_res, w_ev):
